@@ -154,7 +154,8 @@ def main():
                 src = r.get("source", {})
                 if a.show and os.environ.get("VERIF_PATHS"):
                     print(r["fn"], *r.get("path_summary", []), sep="\n   ")
-                functions.append({"fn": r["fn"], "status": r["status"], "lines": src.get("lines"), "sha": src.get("sha"), "paths": r.get("paths"), "obligations": len(r["obligations"]), "queries": r.get("queries"), "detail": r.get("detail", "")[:300]})
+                functions.append({"fn": r["fn"], "status": r["status"], "lines": src.get("lines"), "sha": src.get("sha"), "paths": r.get("paths"), "obligations": len(r["obligations"]), "queries": r.get("queries"), "detail": r.get("detail", "")[:300],
+                                  "obligation_names": sorted(o["name"].split("/", 3)[-1] if o["name"].count("/") >= 3 else o["name"] for o in r["obligations"])})
             out = {
                 "present": True,
                 "functions": functions,
